@@ -12,6 +12,9 @@ def run(lines):
     aug = p.stdout.splitlines()
     if p.returncode != 0 or len(aug) != len(lines):
         raise RuntimeError("harness aug failed: " + p.stderr[-1500:])
+    for a in aug:
+        if a.startswith("HANG "):
+            raise RuntimeError("IMPLDIED " + a[5:] + "\n# the call did not return within the watchdog's time (hang)")
     impl, di = build.run_sharded(build.RQV, aug)
     model_lines = [l for l in aug if not l.startswith("parc")]
     model, dm = build.run_sharded(build.DRIVER, model_lines)
